@@ -233,3 +233,66 @@ Example C11_hc_chain_nonvacuous :
   strict_valid ex_dict (ex_cout ex_cst1 (CContinue 3000 78 200)) = Some ex_b1 /\
   strict_valid [] (ex_cout ex_cst1 (CContinue 3000 78 200)) = None.
 Proof. exact (conj ex_ctrace ex_cresults). Qed.
+
+(* ================================================================ HC, levels 10..12 (optimal parser) - and 3..12 on one model
+   Model/HcTabStream.v is the streaming layer of Model/HcChainStream.v made PARAMETRIC in the block compressor (Section variable
+   [blk] with the contract HcChainParser.ROK = RSpec /\ RCap under TB at s0); Proofs/HcTabStreamProofs.v proves the whole
+   development of HcChainStreamProofs/Hist once for any such compressor.  Model/HcOptStream.v instantiates it with the
+   compressor LZ4HC_compress_generic_internal selects from the level: LZ4HC_compress_hashChain (3..9) or LZ4HC_compress_optimal
+   (10..12: nbSearches, targetLength, ultra = level 12, favorDecSpeed kept in the context), contract from hc_compress_ok /
+   opt_compress_ok.  Both strategies use the same tables: histories may change the level freely inside 3..12.
+   Outside (None): lz4mid levels, the dictionary-context search, CUndef.
+   - C11_hc_opt_stream / _continue / _decodes / _write_block / _saveDict: the statements of the C11_hc_chain_* theorems for
+     this instance (lvl_all = levels 3..12). *)
+From LZ4V Require Import Model.HcOpt Model.HcOptApi Model.HcTabStream Model.HcOptStream Proofs.HcTabStreamProofs Proofs.HcOptStreamProofs Proofs.HcOptStreamExamples.
+
+Theorem C11_hc_opt_stream :
+  forall ops st H, tstate_inv st -> tstream_pre blk_all lvl_all st H ops -> tstream_claim blk_all lvl_all st H ops.
+Proof. exact os_stream_roundtrip. Qed.
+Print Assumptions C11_hc_opt_stream.
+
+Theorem C11_hc_opt_continue :
+  forall m c src n cap lim ret consumed out hw c',
+  hmem_ok m -> ts_ok c -> k_dirty (ts_core c) = false -> 0 < src -> 0 <= n < 2147483648 -> 0 <= cap ->
+  ts_continue_generic blk_all lvl_all m c src n cap lim = Some (TRes ret consumed out hw c') ->
+  exists ke cte, ts_effective lvl_all m c src n = Some (ke, cte) /\ k_ready ke src /\ kc_ok ke cte /\ lvl_all (k_level (ts_core c)) = true /\
+                 tcall_post m ke src n cap lim ret consumed out hw c'.
+Proof. exact os_continue_generic_sound. Qed.
+Print Assumptions C11_hc_opt_continue.
+
+Theorem C11_hc_opt_decodes :
+  forall m ke src n cap lim ret consumed out hw c' H,
+  k_ready ke src -> tcall_post m ke src n cap lim ret consumed out hw c' -> hhist_inv m ke H -> 0 < ret ->
+  (forall K, 65535 <= Z.of_nat K -> spec_decode (lastn K H) out = Some (load_list m src (Z.to_nat consumed))) /\
+  (lim <> FillOutput ->
+   forall K, 65535 <= Z.of_nat K -> strict_valid (lastn K H) out = Some (load_list m src (Z.to_nat consumed))) /\
+  hhist_inv m (ts_core c') (H ++ load_list m src (Z.to_nat consumed)).
+Proof. exact ts_call_decodes. Qed.
+Print Assumptions C11_hc_opt_decodes.
+
+Theorem C11_hc_opt_write_block :
+  forall m c src bs ke cte H,
+  tpre_inv lvl_all c -> hs_dctx (ts_hs c) = None -> 0 < src ->
+  ts_effective lvl_all (store_list m src bs) c src (Z.of_nat (length bs)) = Some (ke, cte) ->
+  hhist_inv m (ts_core c) H ->
+  hhist_inv (store_list m src bs) ke H.
+Proof. exact os_write_block_hist. Qed.
+Print Assumptions C11_hc_opt_write_block.
+
+Theorem C11_hc_opt_saveDict :
+  forall m c a n H,
+  hmem_ok m -> ts_ok c -> 0 < a -> hhist_inv m (ts_core c) H ->
+  hhist_inv (fst (fst (ts_saveDict m c a n))) (ts_core (snd (fst (ts_saveDict m c a n)))) H.
+Proof. exact ts_saveDict_hist. Qed.
+Print Assumptions C11_hc_opt_saveDict.
+
+(* level 11, then 5 (hash chain), then 12 with favorDecSpeed, then 10: one history, every precondition met *)
+Example C11_hc_opt_pre_satisfiable : tstate_inv (ex_m, ex_oc0) /\ tstream_pre blk_all lvl_all (ex_m, ex_oc0) [] ex_oops.
+Proof. exact (conj ex_ostate ex_ostream_pre). Qed.
+Example C11_hc_opt_nonvacuous :
+  otrace (ex_m, ex_oc0) ex_oops =
+  [Some (81, 0); Some (20, 78); Some (18, 63); Some (0, 0); Some (100, 0); Some (27, 78); Some (0, 0); Some (0, 0); Some (8, 7); Some (0, 78);
+   Some (0, 0); Some (73, 78)] /\
+  strict_valid ex_dict (ex_oout ex_ost1 (TContinue 3000 78 200)) = Some ex_b1 /\
+  strict_valid [] (ex_oout ex_ost1 (TContinue 3000 78 200)) = None.
+Proof. exact (conj ex_otrace ex_oresults). Qed.
